@@ -7,8 +7,9 @@ Extracted (None = pattern not recognised -> `extraction_failed`):
   * notify_per_element    the LPUSH / RPUSH arms of `process_normal_command` (src/network/server.rs): is
                           `notify_key_ready` called inside a `for _ in 0..…` loop (once per pushed element)
                           or once per command ?
-  * wake_at_push          do those arms call `self.process_wakeups()` right after notifying (the wake-up is
-                          carried out before the next command of the batch can pop the element) ?
+  * wake_at_push          does `process_normal_command` call `self.process_wakeups()` after the command that
+                          notified (the wake-up is carried out before the next command of the batch, or another
+                          connection in the same iteration, can pop the element) ?
   * unregister_all        does `wake_client` call `unregister_client` after serving (no leftover
                           registration on the other keys of a multi-key BLPOP) ?
   * refuse_in_tx          do `handle_blpop` / `handle_brpop` answer the null array instead of registering
@@ -41,23 +42,20 @@ def facts(src, strip_comments, fn_body):
             out["wake_batch"] = int(m.group(1))
     sv = strip_comments(src("network/server.rs"))
     pnc = fn_body(sv, "process_normal_command") or ""
-    per, atp = [], []
+    per = []
     for name in ("LPUSH", "RPUSH"):
         arm = _arm(pnc, name)
         if arm is None or "notify_key_ready" not in arm:
             per.append(None)
-            atp.append(None)
             continue
         before = arm[:arm.find("notify_key_ready")]
         looped = bool(re.search(r"for\s+_\w*\s+in\s+0\s*\.\.", before))
         other_loop = bool(re.search(r"\b(while|loop)\b", before))
         per.append(None if (other_loop and not looped) else looped)
-        after = arm[arm.find("notify_key_ready"):]
-        atp.append(bool(re.search(r"self\s*\.\s*process_wakeups\s*\(\s*\)", after)))
     if None not in per and len(set(per)) == 1:
         out["notify_per_element"] = per[0]
-    if None not in atp and len(set(atp)) == 1:
-        out["wake_at_push"] = atp[0]
+        i = pnc.find("notify_key_ready")
+        out["wake_at_push"] = bool(re.search(r"self\s*\.\s*process_wakeups\s*\(\s*\)", pnc[i:]))
     wc = fn_body(sv, "wake_client")
     if wc is not None and "send_frame" in wc and ("lpop" in wc and "rpop" in wc):
         out["unregister_all"] = bool(re.search(r"unregister_client\s*\(", wc))
@@ -87,7 +85,7 @@ def generate(src, strip_comments, fn_body, header):
 
     item("wakeBatch", "Nat", f["wake_batch"], "`while wakeups.len() < N` in BlockingManager::process_wakeups", "drain bound of process_wakeups not found")
     item("notifyPerElement", "Bool", f["notify_per_element"], "the LPUSH/RPUSH arms call notify_key_ready in a `for _ in 0..n` loop", "LPUSH/RPUSH arms with notify_key_ready not recognised")
-    item("wakeAtPush", "Bool", f["wake_at_push"], "the LPUSH/RPUSH arms call self.process_wakeups() after notifying", "LPUSH/RPUSH arms with notify_key_ready not recognised")
+    item("wakeAtPush", "Bool", f["wake_at_push"], "process_normal_command calls self.process_wakeups() after the command that notified", "LPUSH/RPUSH arms with notify_key_ready not recognised")
     item("unregisterAllOnServe", "Bool", f["unregister_all"], "wake_client calls unregister_client after serving", "wake_client not recognised")
     item("refuseBlockingInTx", "Bool", f["refuse_in_tx"], "handle_blpop/handle_brpop answer the null array when conn_id == 0", "handle_blpop/handle_brpop with register_blocked not recognised")
     L += ["", "end Ferrous.Gen.Blocking", ""]
